@@ -587,6 +587,9 @@ def gen_request(rng, opcode, model_db, mtu):
         p = le16(handle())
     elif opcode == 0x0C:
         h = handle()
+        long_ones = [a[0] for a in model_db if len(a[3]) > mtu - 1]
+        if long_ones and rng.chance(1, 2):
+            h = rng.choice(long_ones)         # Read Blob only answers for values longer than ATT_MTU - 1
         a = next((a for a in model_db if a[0] == h), None)
         n = len(a[3]) if a else 0
         off = rng.choice([0, 1, n - 1, n, n + 1, mtu - 2, mtu - 1, mtu, n - (mtu - 1), n - mtu, n - (mtu - 2), 0xFFFF,
